@@ -94,6 +94,6 @@ def queries(tier):
     return qs
 
 MANIFEST = {
-    "text": "Bounded symbolic check of the real lmq.c / msgqueue.c ring code and idhash.c: one operation from an arbitrary invariant-satisfying state (ring allocation / table layout concrete, indices, lengths, capacities and keys symbolic) against FIFO-sequence and finite-map reference semantics.",
+    "text": "Bounded symbolic check of the real lmq.c / msgqueue.c ring code and idhash.c: one operation from an arbitrary invariant-satisfying state (ring allocation / table layout concrete, indices, lengths, capacities and keys symbolic) against FIFO-sequence and finite-map reference semantics. Waiting readers and writers of msgqueue.c are served first come first served and the queue plus its blocked writers drain as one FIFO; id-map histories filled exactly to the grow threshold so that the symbolic-key set is the one that resizes.",
     "note": "Inductive step + init establishes invariant; rings up to 8 slots; id-map layouts generated by running the real insertion algorithm.",
 }
